@@ -1,5 +1,6 @@
-from checks import scan, text, hexre
+from checks import scan, text, hexre, cond
 CHECKS = {
+    "C04": cond.c04,
     "C02": hexre.c02,
     "C03": hexre.c03,
     "C01": text.c01,
